@@ -10,6 +10,9 @@
 """
 import json, os, re, shutil, sys
 variant = sys.argv[1] if len(sys.argv) > 1 else "plain"
+oname = sys.argv[2] if len(sys.argv) > 2 else "overlay"
+patterns = sys.argv[3:]  # globs relative to /verif/harness; empty = every harness file
+import fnmatch
 REPO = os.environ.get("VERIF_REPO", "/repo")
 V = "/verif"
 BUILD = os.environ.get("VERIF_BUILD", f"{V}/build")
@@ -30,11 +33,13 @@ for root, dirs, files in os.walk(f"{V}/harness"):
         if not fn.endswith(".go") and not fn.endswith(".json") and not fn.endswith(".teal"):
             continue
         rel = os.path.relpath(root, f"{V}/harness")
+        if patterns and not any(fnmatch.fnmatch(f"{rel}/{fn}", pt) for pt in patterns):
+            continue
         if fn.endswith(".go") and not fn.startswith("verif_"):
             sys.exit(f"harness file {root}/{fn} must be named verif_*.go")
         replace[f"{REPO}/{rel}/{fn}"] = f"{root}/{fn}"
 ov = json.dumps({"Replace": replace}, indent=1, sort_keys=True)
-p = f"{B}/overlay.json"
+p = f"{B}/{oname}.json"
 if not os.path.exists(p) or open(p).read() != ov:
     open(p, "w").write(ov)
 # modfile
